@@ -78,6 +78,8 @@ func tokenizeStream(src io.Reader, normalize bool, dict *dictionary, updateDict 
 	// constructing a rune. These leftover 4 bytes will be copied to the start of
 	// the buffer before additional bytes are read.
 	tgt := bufSize - 4
+	// end is the number of bytes in the buffer that hold input.
+	end := bufSize
 
 	rbuf := make([]byte, bufSize)
 	obuf := make([]byte, 0)
@@ -109,12 +111,15 @@ func tokenizeStream(src io.Reader, normalize bool, dict *dictionary, updateDict 
 			// There are no more bytes to read, so we must now consume all bytes in the
 			// buffer.
 			tgt = idx + n
+			// Whatever follows in the buffer is left over from an earlier chunk and
+			// must not complete a multi-byte sequence the input ends in.
+			end = tgt
 		} else if err != nil {
 			return nil, err
 		}
 
 		for idx = 0; idx < tgt; {
-			r, n := utf8.DecodeRune(rbuf[idx:])
+			r, n := utf8.DecodeRune(rbuf[idx:end])
 			idx += n
 
 			if r == '\n' {
